@@ -293,7 +293,8 @@ Scenario generate(const std::string& prop, uint64_t seed, const std::string& tie
     const long bs[] = {1, 2, 3, 4 + long(r.below(13)), nbLeaves, 1000000,
                        std::max(1L, nbLeaves - 1), nbLeaves + 1, (nbLeaves + 1) / 2, (nbLeaves + 2) / 3, 7, 8, 9, 1 + long(r.below(uint64_t(nbLeaves)))};
     sc.blockSize = bs[r.below(14)];
-    if (sc.src.size() + sc.tgt.size() > 200 && sc.blockSize < 3) sc.blockSize = 3 + long(r.below(6));   // keeps the task count of one run in the thousands
+    if (r.chance(0.06)) sc.blockSize = -1;   // the library's automatic block size (TbfBlockSizeFinder)
+    if (sc.src.size() + sc.tgt.size() > 200 && sc.blockSize >= 0 && sc.blockSize < 3) sc.blockSize = 3 + long(r.below(6));   // keeps the task count of one run in the thousands
     sc.oneGroupPerParent = r.chance(0.35);
     sc.upper = r.chance(0.7) ? (sc.isPeriodic() ? 1 : 2) : long(r.below(uint64_t(sc.height + 1)));
     if (prop == "C12") sc.upper = long(r.below(uint64_t(sc.height + 1)));
